@@ -783,3 +783,45 @@ contract(f"{STSF}::SupervisedTimeSeriesForest.predict_proba", "C17,C16,C12", cas
          frame=lambda A: [A.self, A.X],
          notes=["1..3 trees; _predict_proba_for_estimator (feature extraction + tree) is abstract here; scipy.signal.periodogram and np.diff "
                 "are opaque functions of the squeezed data (recorded by provenance)"])
+
+
+# ----------------------------------------------------------------------------- the state invariants the vote-share contracts assume are set by fit
+@lemma("C17/ensemble-fit-establishes-the-normalisation-invariant", "C17",
+       uses=[f"{BOSS}::BOSSEnsemble.predict_proba", f"{CBOSS}::ContractableBOSS.predict_proba", f"{TDE}::TemporalDictionaryEnsemble.predict_proba"])
+def _fit_sets_normaliser(B):
+    """BOSSEnsemble.predict_proba divides by n_estimators, the weighted ensembles by weight_sum; the contracts assume
+    n_estimators == len(classifiers) resp. weight_sum == sum(weights).  Flow argument over the real AST of `fit`: the LAST statement
+    that touches the normaliser is the top-level assignment  self.n_estimators = len(self.classifiers)  /  self.weight_sum =
+    np.sum(self.weights), and no statement after it on the way to `return self` mentions the member list / the weights."""
+    import ast
+    out = []
+    for module, clsname, norm, expect, lists in (
+            ("sktime.classification.dictionary_based._boss", "BOSSEnsemble", "n_estimators", "len(self.classifiers)", ("classifiers",)),
+            ("sktime.classification.dictionary_based._cboss", "ContractableBOSS", "weight_sum", "np.sum(self.weights)", ("weights",)),
+            ("sktime.classification.dictionary_based._tde", "TemporalDictionaryEnsemble", "weight_sum", "np.sum(self.weights)", ("weights",))):
+        I = B.I
+        ok, cls = I.mod_global(I.src.module(module), clsname)
+        c, fit = I.class_lookup(cls, "fit")
+        body = fit.node.body
+
+        def is_norm_assign(st):
+            return isinstance(st, ast.Assign) and len(st.targets) == 1 and isinstance(st.targets[0], ast.Attribute) and \
+                isinstance(st.targets[0].value, ast.Name) and st.targets[0].value.id == "self" and st.targets[0].attr == norm
+
+        def mentions(st, names):
+            return any(isinstance(n, ast.Attribute) and isinstance(n.value, ast.Name) and n.value.id == "self" and n.attr in names
+                       for n in ast.walk(st))
+        idx = [k for k, st in enumerate(body) if is_norm_assign(st)]
+        all_assigns = [n for n in ast.walk(fit.node) if is_norm_assign(n)]
+        last_ok = bool(idx) and ast.unparse(body[idx[-1]].value).replace(" ", "") == expect.replace(" ", "")
+        # every assignment to the normaliser inside fit is the top-level one (or precedes it), nothing after it touches the lists
+        later = body[idx[-1] + 1:] if idx else []
+        nested_after = [n for n in all_assigns if n not in body and n.lineno > (body[idx[-1]].lineno if idx else 0)]
+        out.append((f"{clsname}:last-top-level-write-is-{norm}={expect}", last_ok))
+        out.append((f"{clsname}:nothing-after-it-changes-the-members-or-the-normaliser",
+                    bool(idx) and not any(mentions(st, lists + (norm,)) for st in later) and not nested_after))
+        out.append((f"{clsname}:fit-ends-with-return-self", isinstance(body[-1], ast.Return) and isinstance(body[-1].value, ast.Name) and body[-1].value.id == "self"))
+        # nested writes BEFORE the final one are harmless only if the final one is unconditional: it is a top-level statement of fit
+        out.append((f"{clsname}:the-final-write-is-unconditional", bool(idx) and not any(
+            isinstance(st, (ast.Return,)) for st in body[:idx[-1]])))
+    return out
